@@ -36,7 +36,7 @@ GRID_DOCS = {
     'meta3': 'ver:"3.0" dis:"Site \\"A\\"" mk num:-4.2e-3 when:2020-02-29\nid dis:"Id" foo,ts,loc unit:"m"\n@a.b-c:1 "Disp",2021-03-04T05:06:07.5+01:00 Paris,C(37.5,-122.25)\nR,12:30:00 , `http://x/a?b=c`\n',
     'coll3': 'ver:"3.0"\nv\n[1, "two" , T ,]\n{a:1 b mk:"x"}\n<<ver:"3.0"\nn\n[5]\n>>\nNA\nBin("text/plain")\n',
     'esc2': 'ver:"2.0"\na,b\n"q\\" \\\\ \\$ \\n \\u00e9 \\t",`u\\`x\\u00e9\\\\`\nBin(text/plain),M\n',
-    'crlf3': 'ver:"3.0" tag\r\na, b\r\n1_000 , INF\r\n-INF,NaN\r\n,F\r\n',
+    'crlf3': 'ver:"3.0" tag\r\na, b\r\n1_000 , INF\r\n-INF,NaN\r\n"x",\r\n,F\r\n, \r\n',
     'two3': 'ver:"3.0"\na\n1\n\nver:"3.0"\nb\n"s"\n',
     'dt2': 'ver:"2.0"\nt\n2020-01-02t03:04:05z\n2020-01-02T03:04:05Z UTC\n2020-06-01T00:00:00-04:00 New_York\n23:59:59.999\n',
 }
@@ -645,6 +645,8 @@ def json_forms(hz):
     v = copy.deepcopy(base); v['meta']['g'] = copy.deepcopy(nested); v['cols'][0]['lst'] = ['n:1']; variants['meta_nested'] = v
     # raw JSON numbers and booleans that are equal and hash alike in Python (1/true, 0/false, 1.0) side by side, both orders
     v = copy.deepcopy(base); v['rows'] = [{'a': 1, 'b': True}, {'a': 0, 'b': False}, {'a': 1.0, 'b': True}, {'a': True, 'b': 1}, {'a': False, 'b': 0.0}]; variants['raw_mix'] = v
+    # text outside ASCII, written raw (not as \\u escapes), for the bytes + charset forms
+    v = copy.deepcopy(base); v['meta']['dis'] = u's:Caf\u00e9 \u00b0C \u20ac'; v['rows'] = [{'a': u'n:21.5 \u00b0C', 'b': u'r:x \u00dcber'}, {'b': u'\u00e9'}]; variants['nonascii'] = v
     fails = []
     n = 0
     for name, tree in variants.items():
@@ -653,15 +655,20 @@ def json_forms(hz):
         except ref.RefReject as e:
             fails.append((name, 'reference rejects its own form: %s' % e))
             continue
-        txt = json.dumps(tree)
-        forms = [('dict', copy.deepcopy(tree), True), ('str', txt, True), ('bytes', txt.encode('utf-8'), True),
-                 ('list', [copy.deepcopy(tree), copy.deepcopy(tree)], False), ('array_str', '[%s,%s]' % (txt, txt), False)]
-        for fname, form, single in forms:
+        txt = json.dumps(tree, ensure_ascii=(name != 'nonascii'))
+        forms = [('dict', copy.deepcopy(tree), True, None), ('str', txt, True, None), ('bytes', txt.encode('utf-8'), True, None),
+                 ('list', [copy.deepcopy(tree), copy.deepcopy(tree)], False, None), ('array_str', '[%s,%s]' % (txt, txt), False, None)]
+        if name in ('nonascii', 'base'):
+            import codecs
+            forms += [('bytes_' + cs, txt.encode(cs), True, cs) for cs in ('utf-8', 'cp1252', 'utf-16', 'utf-16-le', 'utf-16-be', 'utf-32', 'utf-32-be', 'utf-7', 'iso-8859-15', 'cp1140')]
+            forms += [('bytes_utf-16_BE_BOM', codecs.BOM_UTF16_BE + txt.encode('utf-16-be'), True, 'utf-16'), ('bytes_utf-32_BE_BOM', codecs.BOM_UTF32_BE + txt.encode('utf-32-be'), True, 'utf-32'),
+                      ('bytes_array_cp1252', ('[%s,%s]' % (txt, txt)).encode('cp1252'), False, 'cp1252')]
+        for fname, form, single, charset in forms:
             n += 1
             before = copy.deepcopy(form)
             try:
                 with contextlib.redirect_stdout(io.StringIO()):
-                    got = hz.parse(form, mode=hz.MODE_JSON, single=single)
+                    got = hz.parse(form, mode=hz.MODE_JSON, single=single) if charset is None else hz.parse(form, mode=hz.MODE_JSON, single=single, charset=charset)
             except Exception as e:
                 fails.append(('%s/%s' % (name, fname), 'raised %s: %s' % (type(e).__name__, str(e)[:100])))
                 continue
@@ -684,6 +691,83 @@ def json_forms(hz):
                 if [neutral.to_neutral(hz, x) for x in a2] != [neutral.to_neutral(hz, x) for x in grids]:
                     fails.append(('%s/%s' % (name, fname), 'second parse of the same object differs'))
     return n, fails
+
+
+ZINC_FORM_DOCS = {
+    'uni3': u'ver:"3.0" dis:"Caf\u00e9 \u00b0C \u20ac"\nname,val unit:"\u00b0C"\n"\u00dcber",21.5\u00b0C\n`http://x/\u00e9`,[\"\u00e4\", 5\u20ac]\n',
+    'uni2two': u'ver:"2.0"\na\n"\u00e9"\n\nver:"2.0"\nb\n@r "\u00fc"\n',
+}
+
+
+def zinc_forms(hz):
+    """C03: str or bytes input in any charset; single=True gives the first grid, single=False all; empty input gives None / [].
+    Every document x charset (with and without byte-order mark where the codec defines one) x entry point must give what the str gives."""
+    import codecs
+    fails = []
+    n = 0
+    docs = dict(GRID_DOCS)
+    docs.update(ZINC_FORM_DOCS)
+    with contextlib.redirect_stdout(io.StringIO()):
+        for name, text in docs.items():
+            want = [repr(neutral.to_neutral(hz, g)) for g in hz.parse(text, mode=hz.MODE_ZINC, single=False)]
+            forms = []
+            for cs in ('utf-8', 'us-ascii', 'latin-1', 'cp1252', 'iso-8859-15', 'utf-16', 'utf-16-le', 'utf-16-be', 'utf-32', 'utf-32-le', 'utf-32-be', 'utf-7', 'cp1140', 'utf-8-sig'):
+                try:
+                    forms.append((cs, text.encode(cs), cs))
+                except UnicodeEncodeError:
+                    continue
+            forms.append(('utf-16+BE-BOM', codecs.BOM_UTF16_BE + text.encode('utf-16-be'), 'utf-16'))
+            forms.append(('utf-16+LE-BOM', codecs.BOM_UTF16_LE + text.encode('utf-16-le'), 'utf-16'))
+            forms.append(('utf-32+BE-BOM', codecs.BOM_UTF32_BE + text.encode('utf-32-be'), 'utf-32'))
+            forms.append(('utf-32+LE-BOM', codecs.BOM_UTF32_LE + text.encode('utf-32-le'), 'utf-32'))
+            for fname, data, cs in forms:
+                for single in (False, True):
+                    n += 1
+                    tag = '%s/%s/%s' % (name, fname, 'single' if single else 'all')
+                    try:
+                        got = hz.parse(data, mode=hz.MODE_ZINC, charset=cs, single=single)
+                    except Exception as e:
+                        fails.append((tag, 'bytes in charset %s raised %s: %s (the str parses)' % (cs, type(e).__name__, str(e)[:100])))
+                        continue
+                    got = [got] if single else got
+                    gw = want[:1] if single else want
+                    if [repr(neutral.to_neutral(hz, g)) for g in got] != gw:
+                        fails.append((tag, 'bytes in charset %s decoded differently from the str' % cs))
+                # default charset is utf-8; default single is True
+            n += 1
+            try:
+                if repr(neutral.to_neutral(hz, hz.parse(text.encode('utf-8'), mode=hz.MODE_ZINC))) != want[0] or repr(neutral.to_neutral(hz, hz.parse(text))) != want[0]:
+                    fails.append((name + '/defaults', 'parse(text) / parse(utf-8 bytes) with default arguments is not the first grid'))
+            except Exception as e:
+                fails.append((name + '/defaults', 'raised %s' % type(e).__name__))
+        # scalars as bytes
+        for name, (version, text) in SCALAR_DOCS.items():
+            n += 1
+            try:
+                a = neutral.to_neutral(hz, hz.parse_scalar(text, mode=hz.MODE_ZINC, version=version))
+                for cs in ('utf-8', 'utf-16', 'utf-32-be', 'cp1252'):
+                    b = neutral.to_neutral(hz, hz.parse_scalar(text.encode(cs), mode=hz.MODE_ZINC, version=version, charset=cs))
+                    if repr(a) != repr(b):
+                        fails.append(('scalar:%s/%s' % (name, cs), 'bytes scalar decoded differently from the str'))
+            except Exception as e:
+                fails.append(('scalar:%s' % name, 'raised %s: %s' % (type(e).__name__, str(e)[:80])))
+        # empty input
+        for data in ('', b''):
+            n += 1
+            try:
+                if hz.parse(data, mode=hz.MODE_ZINC) is not None or hz.parse(data, mode=hz.MODE_ZINC, single=False) != []:
+                    fails.append(('empty/%s' % type(data).__name__, 'empty input does not give None / []'))
+            except Exception as e:
+                fails.append(('empty/%s' % type(data).__name__, 'empty input raised %s' % type(e).__name__))
+    return n, fails
+
+
+def replay_zforms(hz, job, c):
+    n, fails = zinc_forms(hz)
+    for name, msg in fails:
+        if name == c:
+            return '%s: %s' % (name, msg)
+    return None
 
 
 def corpus_run(hz, job):
@@ -768,6 +852,15 @@ if __name__ == '__main__':
                 import hszinc
             n, fails = corpus_run(hszinc, job)
             res = dict(job=job, status='done', cex=[], ncex=0, forms_run=n, forms_failures=fails, wall_s=0.0, functions=[], conc_calls=[],
+                       stats=dict(explorations=0, paths=n, checks=0, solver_s=0.0, nontrivial=n, errors=[], reached=n, budget=0))
+        elif job.get('zforms'):
+            import logging
+            logging.disable(logging.CRITICAL)
+            sys.path.insert(0, common.REPO)
+            with contextlib.redirect_stdout(io.StringIO()):
+                import hszinc
+            n, fails = zinc_forms(hszinc)
+            res = dict(job=job, status='done', cex=[], ncex=0, forms_run=n, forms_failures=fails[:12], wall_s=0.0, functions=[], conc_calls=[],
                        stats=dict(explorations=0, paths=n, checks=0, solver_s=0.0, nontrivial=n, errors=[], reached=n, budget=0))
         elif job.get('forms'):
             import logging
